@@ -124,6 +124,14 @@ CHECKS["C16"] = dict(
     design="DESIGN.md §6 C16",
 )
 
+CHECKS["C17"] = dict(
+    category="exploration",
+    technique="exhaustive input enumeration (IX) of the real HTTP request parser/rewriter against an independent reference resolver, plus boundary and ordering cases through the real front-end over loopback (LX)",
+    text="~10^5 (thorough ~3x10^5) generated proxy requests: {GET,POST,PUT,OPTIONS,CONNECT} x target forms {origin, '*', absolute http/https with and without path/query, authority} x 5 host spellings (names in two cases, IPv4, two bracketed IPv6) x ports {none,80,443,8080,65535} x Host header {absent, 4 letter-case spellings with/without space, differing from the URI} at every position among 0-2 other headers (duplicates, a name that merely starts with 'host') x versions x body prefixes; oracle: tunnel authority, CONNECT flag, forwarded request line, other headers in order, exactly one Host line at the original position (or appended) denoting the same authority, body prefix intact. LX: header blocks of 65000 / 65536 / 65537 bytes with body bytes in the same or a later segment and forced first-segment sizes, CONNECT '200' only with a tunnel, early bytes after a CONNECT header exactly once, refusing target, origin-form forwarding per Host spelling.",
+    note="Trusted: reference resolver written from RFC 7230 section 5; H8 wrappers expose the private functions unchanged; LX in real time with forced TCP cuts.",
+    design="DESIGN.md §6 C17",
+)
+
 NOT_YET = {
 }
 
